@@ -173,6 +173,9 @@ type Blocks struct {
 	// Peers are block stores of connected peers: a block missing locally is
 	// fetched from them and then stored locally (as bitswap does).
 	Peers []*Blocks
+	// EntryWrites counts entry writes; the FailWriteAt-th one (if not 0) fails once.
+	EntryWrites int
+	FailWriteAt int
 	// PeersFn, if set, replaces Peers: the block stores reachable right now
 	// (link state of a simulated network).
 	PeersFn func() []*Blocks
@@ -277,6 +280,13 @@ type Node struct {
 func (io *IO) Write(ctx context.Context, ipfs coreiface.CoreAPI, obj interface{}, opts *logiface.WriteOpts) (cid.Cid, error) {
 	switch o := obj.(type) {
 	case logiface.IPFSLogEntry:
+		io.B.mu.Lock()
+		io.B.EntryWrites++
+		fail := io.B.FailWriteAt != 0 && io.B.FailWriteAt == io.B.EntryWrites
+		io.B.mu.Unlock()
+		if fail {
+			return cid.Cid{}, fmt.Errorf("vstub: injected block write failure")
+		}
 		c := CidFromToken(Hash(contentOf(o)))
 		tok := -1
 		if cl := o.GetClock(); cl != nil && cl.Defined() {
@@ -595,6 +605,8 @@ type Cache struct {
 	Puts   int
 	// Locked is set while a store opened from the disk model is open (leveldb's LOCK file).
 	Locked bool
+	// FailPut, if set, makes every Put of that key fail (a storage error).
+	FailPut string
 	// Label summarises a value for Event labels (set by harnesses that replay schedules).
 	Label func(key string, value []byte) string
 }
@@ -617,6 +629,9 @@ func (c *Cache) Put(ctx context.Context, key datastore.Key, value []byte) error 
 	label := "cache-put:" + key.String()
 	if c.Label != nil {
 		label += ":" + c.Label(key.String(), value)
+	}
+	if c.FailPut != "" && c.FailPut == key.String() {
+		return fmt.Errorf("vstub: injected cache write failure")
 	}
 	tok := EventBegin(label)
 	c.mu.Lock()
